@@ -151,9 +151,9 @@ func allSpecs() map[string]*PropSpec {
 	add(&PropSpec{
 		ID:          "C06",
 		Technique:   "abstract interpretation of lexer (byte classes, step width, progress) and parser (token kinds, progress), loop and recursion census with termination arguments by role, panic-instruction scan over SSA reachable from handlers, bounds and repeat-count clamps by slicing",
-		Explanation: "L-PROGRESS (byte-class abstract interpretation of the lexer, all calling contexts): every non-EOF token return happens after the position strictly increased since Next was entered, and EOF is returned only at the end of input - hence tokens never overlap, stay inside the input and tokenisation terminates with EOF for every byte string. P-PROGRESS (token-kind abstract interpretation of the parser): every path back to the head of a token loop consumes a token. LOOP-CENSUS: every other for-loop modifies a variable of its condition on every path (worklist/fixpoint loops admitted by name with their argument). REC-CENSUS: the only recursion is the guarded include recursion and the structural settings recursion. D-EXPONENT: a parsed quantity passes an Exponent() bound before it enters the tree. C06-REPEAT: Repeat counts are non-negative and configuration integers that reach them are clamped. C06-PANIC: no explicit panic, unchecked assertion or non-constant integer division on a request path. C06-BOUNDS: byte offsets converted from client columns are clamped before slicing. N-NIL: every dereference of an optional part of a posting (pointer-typed field of ast.Posting) is reached only behind a nil test of that field. units (no byte/rune/UTF-16 mix feeding an index). L-STEP: the lexer position only moves by the decoded width of the current rune, so it cannot leave the input (slice bounds) or skip bytes.",
+		Explanation: "L-PROGRESS (byte-class abstract interpretation of the lexer, all calling contexts): every non-EOF token return happens after the position strictly increased since Next was entered, and EOF is returned only at the end of input - hence tokens never overlap, stay inside the input and tokenisation terminates with EOF for every byte string. P-PROGRESS (token-kind abstract interpretation of the parser): every path back to the head of a token loop consumes a token. LOOP-CENSUS: every other for-loop modifies a variable of its condition on every path (worklist/fixpoint loops admitted by name with their argument). REC-CENSUS: the only recursion is the guarded include recursion and the structural settings recursion. D-EXPONENT: a parsed quantity passes an Exponent() bound before it enters the tree. C06-REPEAT: Repeat counts are non-negative and configuration integers that reach them are clamped. C06-PANIC: no explicit panic, unchecked assertion or non-constant integer division on a request path. C06-BOUNDS: byte offsets converted from client columns are clamped before slicing. U-XSTR: a byte position obtained by ranging over one string is never used to index or slice a different string. N-NIL: every dereference of an optional part of a posting (pointer-typed field of ast.Posting) is reached only behind a nil test of that field. units (no byte/rune/UTF-16 mix feeding an index). L-STEP: the lexer position only moves by the decoded width of the current rune, so it cannot leave the input (slice bounds) or skip bytes.",
 		NotDecided:  "slice/index bounds in general (no sound bound analysis in reach), time proportional to size beyond loop progress (e.g. repeated lookahead), unsigned wrap-around in the token encoder.",
-		Rules:       []func(*Ctx){ruleLexer, ruleParser, ruleLoopCensus, ruleRecCensus, ruleDecimalExponent, ruleRepeat, rulePanic, ruleBounds, ruleOptionalDeref, ruleUnits("module", nil)},
+		Rules:       []func(*Ctx){ruleLexer, ruleParser, ruleLoopCensus, ruleRecCensus, ruleDecimalExponent, ruleRepeat, rulePanic, ruleBounds, ruleOptionalDeref, ruleCrossIndex, ruleUnits("module", nil)},
 	})
 	add(&PropSpec{
 		ID:          "C03",
